@@ -1,7 +1,6 @@
 package cfgx
 
 import (
-	"net/http"
 	"regexp"
 	"sort"
 	"strings"
@@ -83,7 +82,7 @@ func Cond(n *Node, k Kind, st *State) bool {
 	case KURLRe:
 		return compiled(n.Attr("regex")).MatchString(st.URL())
 	case KHdr:
-		return contains(st.H(k)[http.CanonicalHeaderKey(n.Attr("name"))], n.Attr("value"))
+		return contains(st.HeaderValues(k, n.Attr("name")), n.Attr("value"))
 	case KHdrRe:
 		// the value of the exchange's *request* header, for both kinds
 		v := st.ReqH.Get(n.Attr("header"))
